@@ -276,6 +276,20 @@ func checkOutcome(w *World, gen string, r *schema.Resource, m *schema.Method, o 
 		if o.text != "" && !strings.Contains(callErr.Error()+string(last.Body), o.text) {
 			return "failure-message-lost", fmt.Sprintf("neither the client error %q nor the body %q mentions %q", callErr, last.Body, o.text)
 		}
+		// "becomes an error response": the error header is set and the client receives a Rest.li error whose
+		// message carries the text (errors and panics; a nil entity is only required to fail)
+		if o.text != "" {
+			if !hdr {
+				return "failure-not-an-error-response", fmt.Sprintf("status %d without X-RestLi-Error-Response, content type %q, body %.200q", res.StatusCode, res.Header.Get("Content-Type"), last.Body)
+			}
+			var re *restli.Error
+			if !errors.As(callErr, &re) {
+				return "failure-client-error-type", fmt.Sprintf("client returned %T %v, want *restli.Error", callErr, callErr)
+			}
+			if re.Message == nil || !strings.Contains(*re.Message, o.text) {
+				return "failure-message-lost", fmt.Sprintf("the error response's message %v does not mention %q", re.Message, o.text)
+			}
+		}
 	}
 	return "", ""
 }
